@@ -224,10 +224,10 @@ fn attr<'a>(a: &'a [(String, String)], k: &str) -> Option<&'a str> {
 pub fn decode(g: &Graph, prefix: &str) -> Result<String, String> {
     use std::fmt::Write;
     let mut out = String::new();
-    let _ = write!(out, " {}", g.nodes.len());
     let id_of = |name: &str| -> Result<usize, String> {
         name.strip_prefix(prefix).and_then(|s| s.parse::<usize>().ok()).ok_or(format!("bad node name {:?}", name))
     };
+    let mut nodes: Vec<(usize, usize, usize)> = Vec::new();
     for n in &g.nodes {
         let id = id_of(&n.name)?;
         let label = attr(&n.attrs, "label").ok_or("node without label")?;
@@ -252,15 +252,26 @@ pub fn decode(g: &Graph, prefix: &str) -> Result<String, String> {
             }
             Some(c) => return Err(format!("unknown colour {}", c)),
         };
+        nodes.push((id, kind, tid));
+    }
+    // canonical order: the picture is a set of nodes and a set of edges
+    nodes.sort();
+    let _ = write!(out, " {}", nodes.len());
+    for (id, kind, tid) in nodes {
         let _ = write!(out, " {} {} {}", id, kind, tid);
     }
-    let _ = write!(out, " {}", g.edges.len());
+    let mut edges: Vec<(usize, usize, usize)> = Vec::new();
     for e in &g.edges {
         let label = attr(&e.attrs, "label").ok_or("edge without label")?;
         // "<class text> (C#<id>)"
         let p = label.rfind(" (C#").ok_or(format!("edge label {:?}", label))?;
         let cc = label[p + 4..].strip_suffix(')').and_then(|s| s.parse::<usize>().ok()).ok_or(format!("edge label {:?}", label))?;
-        let _ = write!(out, " {} {} {}", id_of(&e.src)?, id_of(&e.dst)?, cc);
+        edges.push((id_of(&e.src)?, id_of(&e.dst)?, cc));
+    }
+    edges.sort();
+    let _ = write!(out, " {}", edges.len());
+    for (a, b, c) in edges {
+        let _ = write!(out, " {} {} {}", a, b, c);
     }
     Ok(out)
 }
